@@ -25,6 +25,34 @@ def flag_shape_programs():
     return out
 
 
+def dead_code_programs():
+    """the only measurement / barrier sits in code that never runs (uncalled subroutine, zero-iteration loop,
+    untaken compile-time branch): the text contains it, the unrolled program does not"""
+    pre = 'OPENQASM 3.0;\ninclude "stdgates.inc";\nqubit[3] q;\nbit[3] c;\nint[8] sw = 1;\n'
+    out = []
+    for t in ("c[0] = measure q[0];", "barrier q[1];", "c[1] = measure q[1]; barrier q;"):
+        out.append(pre + "def never(qubit a) { %s }\nh q[0];\nx q[1];\n" % t.replace("q[0]", "a").replace("q[1]", "a").replace(" q;", " a;").replace("c[0] = ", "").replace("c[1] = ", ""))
+        out.append(pre + "h q[0];\nfor int i in [1:0] { %s }\nx q[1];\n" % t)
+        out.append(pre + "h q[0];\nif (sw == 2) { %s }\nx q[1];\n" % t)
+        out.append(pre + "h q[0];\nswitch (sw) { case 3 { %s } default { x q[2]; } }\n" % t)
+    return out
+
+
+def cached_flag_histories(rnd):
+    """a flag answered from the text, then (optionally) a transformation, then unroll(): the answer must follow"""
+    out = []
+    for src in dead_code_programs():
+        for mid in ([], [(0, "remove_includes", True)], [(0, "populate_idle_qubits", True)], [(0, "validate")], [(0, "depth")],
+                    [(0, "remove_includes", False)], [(0, "copy")]):
+            body = [(0, "has_measurements"), (0, "has_barriers")] + mid + [(0, "unroll"), (0, "has_measurements"), (0, "has_barriers")]
+            nmod = 1 + sum(1 for o in mid if o[1] == "copy" or (len(o) > 2 and not o[2]))
+            if nmod > 1:
+                body += [(1, "unroll"), (1, "has_measurements"), (1, "has_barriers")]
+            hist, nobs = modcheck.hist_with_obs(rnd, body, nmod)
+            out.append(dict(src=src, hist=hist, nobs=nobs, family="flag-cached-then-unrolled"))
+    return out
+
+
 def make_cases(rnd, tier, progs):
     n = 330 if tier == "quick" else 3000
     ps = progs(40 if tier == "quick" else 200) + flag_shape_programs()
@@ -48,7 +76,7 @@ def make_cases(rnd, tier, progs):
             body.append((rnd.randrange(nmod), rnd.choice(FLAGQ)))
         hist, nobs = modcheck.hist_with_obs(rnd, body, nmod)
         out.append(dict(src=src, hist=hist, nobs=nobs, family="flags-around-transformations" if "int[8] sw = 1;\nh q[0];" not in src else "flags-in-every-container"))
-    return out
+    return out + cached_flag_histories(rnd)
 
 
 def run(tier, seed, replay):
